@@ -27,10 +27,12 @@ import errno
 import io
 import json
 import os
+import re
 import shutil
 import sys
 
 ENTRIES = ("numpy", "array", "tobytes", "tofile_file", "tofile_mem", "convert")
+ROTATION = (("numpy", "tofile_file"), ("array", "tofile_mem"), ("tobytes", "convert"))
 NBYTES = 16
 MODEL_INO = 9
 
@@ -56,6 +58,46 @@ def parse_enum(out_path: str):
             elif r.get("t") == "cases":
                 groups.setdefault((r["i"], r["s"]), []).extend(r["cs"])
     return roots, groups
+
+
+_RE_GROUP = re.compile(r'^"\{\\"t\\":\\"cases\\",\\"i\\":(\d+),\\"s\\":(\d+)')
+
+
+def split_enum(out_path: str, dest_dir: str):
+    """Streaming variant for large runs: root records are parsed, the "cases" lines are appended
+    unparsed to one file per (instance, spelling).  -> (roots, {(i,s): file})"""
+    os.makedirs(dest_dir, exist_ok=True)
+    roots, files, handles = {}, {}, {}
+    with open(out_path, "r", errors="replace") as f:
+        for line in f:
+            if not line.startswith('"'):
+                continue
+            m = _RE_GROUP.match(line)
+            if m:
+                k = (int(m.group(1)), int(m.group(2)))
+                h = handles.get(k)
+                if h is None:
+                    files[k] = os.path.join(dest_dir, f"cases-{k[0]}-{k[1]}.jl")
+                    h = handles[k] = open(files[k], "w")
+                h.write(line)
+                continue
+            try:
+                r = json.loads(json.loads(line))
+            except ValueError:
+                continue
+            if isinstance(r, dict) and r.get("t") == "root":
+                roots[(r["i"], r["s"])] = r
+    for h in handles.values():
+        h.close()
+    return roots, files
+
+
+def load_cases(path: str):
+    cases = []
+    with open(path) as f:
+        for line in f:
+            cases.extend(json.loads(json.loads(line))["cs"])
+    return cases
 
 
 def parse_proto(out_path: str):
@@ -379,7 +421,8 @@ def run_batch(task):
     """task: dict(root_rec, cases, workdir, entries, env_check). Returns a result dict."""
     install_hook()
     np, onnx, ir = _imports()
-    rr, cases, workdir = task["root"], task["cases"], task["workdir"]
+    rr, workdir = task["root"], task["workdir"]
+    cases = task["cases"] if "cases" in task else load_cases(task["cases_file"])
     inst, sp = rr["i"], rr["s"]
     root = os.path.join(workdir, f"i{inst}s{sp}")
     res = dict(key=[inst, sp], evaluations=0, reads=0, violations={}, divergences={}, samples={}, env=0,
@@ -441,10 +484,19 @@ def run_batch(task):
                 return res
 
         entries = task.get("entries", ENTRIES)
+        rotate = task.get("rotate_boring", False)
+
+        def entries_for(n, c):
+            """quick tier: configurations where the check passes and open() fails for a missing
+            component get one _load-based and one tofile-based entry point, rotating"""
+            if rotate and c[1] == "rej" and c[3] in ("ENOENT", "ENOTDIR"):
+                return ROTATION[n % 3]
+            return entries
+
         if route == "direct":
-            for c, ls in zip(cases, locstrs):
+            for n, (c, ls) in enumerate(zip(cases, locstrs)):
                 plain = base_phys is not None and is_plain(c[0], fs_paths, base_phys)
-                for entry in entries:
+                for entry in entries_for(n, c):
                     t = make_tensor(ir, ls, expected_base)
                     obs = observe(np, ir, t, entry, destf)
                     judge.judge(c, ls, entry, obs, plain)
@@ -473,7 +525,9 @@ def run_batch(task):
                 inits = list(model.graph.initializers.values())
                 if len(inits) != len(cases):
                     raise RuntimeError("loaded model lost initializers")
-                for c, ls, v in zip(cases, locstrs, inits):
+                for n, (c, ls, v) in enumerate(zip(cases, locstrs, inits)):
+                    if entry not in entries_for(n, c):
+                        continue
                     t = v.const_value
                     if not isinstance(t, ir.ExternalTensor) or str(t.location) != ls:
                         raise RuntimeError(f"loaded tensor for {ls!r} is {t!r}")
@@ -508,6 +562,12 @@ def run_batch(task):
                 del model
         destf.close()
         res["violations"], res["divergences"], res["samples"] = judge.violations, judge.divergences, judge.samples
+        lb = res["loadbase"]
+        if lb is not None and not lb["ok"]:
+            # the loader derived a base_dir that is not the model's directory: every difference of
+            # this group follows from that one violation, it says nothing about the model
+            res["consequential"] = sum(judge.divergences.values())
+            res["divergences"], res["samples"] = {}, {}
     except Exception as e:  # noqa: BLE001 - reported as machinery failure by the parent
         import traceback
 
@@ -595,7 +655,7 @@ def run_proto(task):
                 want_open = [e["f"] for e in st["ev"] if e["e"] == "open"]
                 bstr = str(t.base_dir)
                 ctxd = dict(inst=inst, spelling=sp, loc=h["l"], location=ls, step=n + 1,
-                            history=[[x["c"], x["a"]] for x in h["h"][: n + 1]], spec=want, got=list(got),
+                            history=[[x["c"], x["a"]] for x in h["h"][: n + 1]], hist=h["h"][: n + 1], spec=want, got=list(got),
                             opened=opened, spec_opened=want_open)
                 # property: an open of a regular file that is not legitimate for the current non-empty base
                 if bstr:
